@@ -317,6 +317,8 @@ ExecWithdraw(s, tx) ==
 
 LastValNames(s) == {s.vol.lastVals[i].v : i \in 1..Len(s.vol.lastVals)}
 
+GovParamsType == 257
+
 ValidProposal(s, tx) ==
   LET pl == tx.payload  g == s.gov IN
   /\ tx.to = "zero"
@@ -324,7 +326,8 @@ ValidProposal(s, tx) ==
   /\ tx.hash \notin DOMAIN s.props
   /\ pl.start > s.h
   /\ pl.period >= g.minVotingPeriodBlocks /\ pl.period <= g.maxVotingPeriodBlocks
-  /\ \A i \in 1..Len(pl.opts) : pl.opts[i].fields.valid
+  \* the options of a parameter proposal (type 0x0101 = 257) must be parameter documents; other types carry any text
+  /\ (pl.optType = GovParamsType => \A i \in 1..Len(pl.opts) : pl.opts[i].fields.valid)
   /\ pl.apply >= pl.start + pl.period + g.lazyApplyingBlocks
   /\ Len(pl.opts) >= 1
 
@@ -433,14 +436,16 @@ ApplyProps(s, ids) ==
   ELSE LET id == CHOOSE x \in ids : TRUE
            p == s.tree.fprops[id]
            new == Merge(s.gov, s.docs[p.major.v.doc].fields.f)
-       IN ApplyProps([s EXCEPT !.fprops = Drop(@, id), !.govPending = [some |-> TRUE, v |-> new], !.govLedger = [some |-> TRUE, v |-> new]],
-                     ids \ {id})
+       IN IF p.optType # GovParamsType
+          THEN ApplyProps([s EXCEPT !.fprops = Drop(@, id)], ids \ {id})      \* nothing on chain to apply
+          ELSE ApplyProps([s EXCEPT !.fprops = Drop(@, id), !.govPending = [some |-> TRUE, v |-> new], !.govLedger = [some |-> TRUE, v |-> new]],
+                          ids \ {id})
 
 \* the parameter sets the end of this block may leave pending: when several proposals are applied in one block each
 \* merge starts from the ACTIVE parameters, so the last one in the ledger's key order (not visible here) wins
 ApplyCandidates(s) ==
   {Merge(s.gov, s.docs[s.tree.fprops[id].major.v.doc].fields.f) :
-     id \in {x \in DOMAIN s.tree.fprops : s.tree.fprops[x].apply <= s.h /\ x \in DOMAIN s.fprops}}
+     id \in {x \in DOMAIN s.tree.fprops : s.tree.fprops[x].apply <= s.h /\ x \in DOMAIN s.fprops /\ s.tree.fprops[x].optType = GovParamsType}}
 
 \* refund the unbonding stakes that matured, as COMMITTED by the previous block
 RECURSIVE Refund(_, _)
